@@ -190,6 +190,52 @@ Proof.
     cbn [bind]. rewrite register_glob by assumption. reflexivity.
 Qed.
 
+(* reader state after a value-defining instruction [i] (vid = rs_next st) was constructed *)
+Definition after_value (i : instr) (n : string) (t : ty) (st : rst) : rst :=
+  mk_rst (rs_glob st) ((n, (Loc (rs_next st), t)) :: rs_loc st) true (rs_pend st) (Pos.succ (rs_next st))
+         (rs_bmap st) (rs_funcs st) (rs_blocks st) (rs_ins st ++ [i]).
+Definition open_block (st : rst) : Prop :=
+  match List.rev (rs_ins st) with x :: _ => is_terminator x = false | [] => True end.
+Definition fresh_name (n : string) (st : rst) : Prop :=
+  rs_infun st = true /\ plookup n (rs_pend st) = None /\ vlookup n (rs_loc st) = None /\
+  mem_str n (block_names_of (rs_blocks st)) = false.
+
+Lemma finish_value_fresh i v n t st :
+  instr_def i = Some (v, n, t) -> v = rs_next st -> fresh_name n st -> open_block st ->
+  finish_value i st = Ok (after_value i n t st).
+Proof.
+  intros Hd -> (Hi & Hp & Hv & Hb) Ho. unfold finish_value. rewrite Hd.
+  unfold register. rewrite Hp. cbn [bind]. rewrite Hi, Hv. cbn [bind].
+  unfold add_instruction, with_next. cbn [rs_ins rs_blocks].
+  unfold open_block in Ho. destruct (List.rev (rs_ins st)) as [|x r].
+  - cbn [check negb bind]. rewrite Hd. cbn [def_name fst snd]. rewrite Hb. reflexivity.
+  - rewrite Ho. cbn [check negb bind]. rewrite Hd. cbn [def_name fst snd]. rewrite Hb. reflexivity.
+Qed.
+
+(* instruction kinds without operands: constants, stack slots, literal data, undefined *)
+Lemma leaf_instr_roundtrip f vt i v n t st :
+  match i with
+  | IConst _ _ _ _ | IUndef _ _ _ => True
+  | IAlloc _ _ s _ => s <> 0
+  | ILit _ _ d => all_byte d = true
+  | _ => False
+  end ->
+  instr_def i = Some (v, n, t) -> v = rs_next st -> fresh_name n st -> open_block st ->
+  exists j, write_instruction cfg_fixed f i = Ok j /\
+            construct_instruction cfg_fixed vt j st = Ok (after_value i n t st).
+Proof.
+  intros Hk Hd Hv Hf Ho.
+  destruct i; try contradiction; cbn [write_instruction fix_undefined cfg_fixed]; eexists; (split; [reflexivity|]);
+    unfold construct_instruction, jstr, jint; cbn [jget jlookup String.eqb Ascii.eqb Bool.eqb bind as_str as_int];
+    cbn -[finish_value]; cbn [instr_def] in Hd; inversion Hd; subst.
+  - rewrite type_roundtrip. cbn [bind]. rewrite const_roundtrip. cbn [bind].
+    eapply finish_value_fresh; try eassumption; reflexivity.
+  - destruct (Z.eqb_spec size 0) as [E|E]; [contradiction|]. cbn [negb check bind].
+    eapply finish_value_fresh; try eassumption; reflexivity.
+  - rewrite bytes_roundtrip by assumption. cbn [bind]. eapply finish_value_fresh; try eassumption; reflexivity.
+  - rewrite type_roundtrip. cbn [bind]. eapply finish_value_fresh; try eassumption; reflexivity.
+Qed.
+
 (* ------------------------------------------------------------------ bounded module round trip *)
 From PV Require Import Gen.c16_corpus.
 Definition corpus_ok (m : modul) : bool := wf_modul m && rt_ok cfg_fixed m.
